@@ -37,6 +37,37 @@ def encResult : CurlResult → Json
   | .globbed => jobj [("kind", .str "globbed")]
   | .unsupported => jobj [("kind", .str "unsupported")]
 
+/-! recorder histories -/
+
+def decRecReq (j : Json) : Except String RecRequest := do
+  return ⟨← asChars (← field j "method"), ← asChars (← field j "uri"), ← asOpt asChars (optField j "body"),
+          ← asPairs asChars (asList asChars) (← field j "headers")⟩
+
+def decOp (j : Json) : Except String Op := do
+  match ← asStr (← field j "k") with
+  | "case" => return .recordCase (← asOpt asChars (optField j "parent")) ⟨← asChars (← field j "id"), ← asNat (← field j "obj")⟩
+  | "response" => return .recordResponse (← asChars (← field j "id")) (← decRecReq (← field j "req")) (← asBool (← field j "verify"))
+  | "request" => return .recordRequest (← asChars (← field j "id")) (← decRecReq (← field j "req"))
+  | "success" => return .checkSuccess (← asChars (← field j "name")) (← asChars (← field j "id"))
+  | "failure" => return .onFailure (← asChars (← field j "name")) (← asChars (← field j "pid")) (← asOpt asChars (optField j "fcid"))
+  | s => .error s!"bad op {s}"
+
+def encErr : RecErr → Json
+  | .keyError => .str "KeyError"
+  | .assertionError => .str "AssertionError"
+  | .indexError => .str "IndexError"
+
+def encFd (fd : FailureData) : Json :=
+  jobj [("id", jstr fd.case.id), ("obj", jnat fd.case.obj), ("headers", encPairs fd.headers), ("verify", .bool fd.verify)]
+
+def encOutcome : Except RecErr FailureData → Json
+  | .ok fd => jobj [("ok", encFd fd)]
+  | .error e => jobj [("error", encErr e)]
+
+def encRecReq (r : RecRequest) : Json :=
+  jobj [("method", jstr r.method), ("uri", jstr r.uri), ("body", encOptStr r.body),
+        ("headers", .arr (r.headers.map fun kv => .arr [jstr kv.1, encWords kv.2]))]
+
 def handle : Handler := fun op a => do
   match op with
   | "quote" => return .arr ((← asList asChars (← field a "ss")).map fun s => jstr (shlexQuote s))
@@ -74,6 +105,23 @@ def handle : Handler := fun op a => do
     return jobj [("argv", encOptWords parsed),
                  ("sem", match parsed with | some v => encResult (curlSem v) | none => .null),
                  ("ok", .bool (reproduces auto orig cmd))]
+  | "history" =>
+    -- the code model: the recorder after the history (the sample of a failed check is the data selected for it)
+    let ops ← asList decOp (← field a "ops")
+    let st := SV.Model.C09.run (fun fd => fd) ops
+    return jobj [
+      ("outcomes", .arr ((outcomes (fun fd => fd) Recorder.empty ops).map encOutcome)),
+      ("checks", .arr (st.checks.map fun kv => .arr [jstr kv.1, .arr (kv.2.map fun n =>
+          .arr [jstr n.name, match n.sample with | none => .null | some fd => encFd fd])])),
+      ("cases", .arr (st.cases.map fun kv => .arr [jstr kv.1, jnat kv.2.value.obj, encOptStr kv.2.parent])),
+      ("interactions", .arr (st.interactions.map fun kv => jstr kv.1))]
+  | "select" =>
+    -- the specification alone: what the report of a failure of test case `key` stands for after `n` operations
+    let ops ← asList decOp (← field a "ops")
+    let h := ops.take (← asNat (← field a "n"))
+    let key ← asChars (← field a "key")
+    return jobj [("data", encOutcome (expectedData h key)),
+                 ("sent", match lastSent h key with | none => .null | some ia => encRecReq ia.request)]
   | _ => .error s!"unknown op {op}"
 
 def main : IO Unit := run handle
